@@ -103,11 +103,20 @@ def run(ctx):
             if hi <= lo:
                 continue
             pos = OFF + lo + r.randrange(hi - lo)
+            if field == "share_hash_chain":
+                # entries are (2-byte node index, 32-byte hash): alter a hash VALUE.  An altered index
+                # merely files a genuine hash under another node, which the shared share-hash tree may
+                # never need (harmless, and order dependent).
+                nent = (hi - (lo - 2)) // 34
+                pos = OFF + (lo - 2) + 34 * r.randrange(nent) + 2 + r.randrange(32)
             bit = 1 << r.randrange(8)
             # The verification key is taken from the first share that provides one matching the
             # fingerprint and is not re-read from later shares (the node caches it), so an altered
             # key field in ONE share is never looked at; alter it in every share.
-            targets = shs if field == "pubkey" else [sh]
+            # Likewise the share hash tree is shared by all shares of a version: a reader that already
+            # holds the nodes a share needs does not even fetch that share's chain.  Both fields are
+            # therefore altered in every share (at the same position: the layouts coincide).
+            targets = shs if field in ("pubkey", "share_hash_chain") else [sh]
             for t in targets:
                 traw = g.read_share(t)
                 g.write_share(t, traw[:pos] + bytes([traw[pos] ^ bit]) + traw[pos + 1:])
